@@ -15,7 +15,7 @@ from checks.c18 import ChainExportOb, ExportOb, RawExportOb, eqs
 from checks.tpl import validity_assumptions
 from lx.check import Verdict
 from lx.engine import SymStr
-from lx.lifted import dump_runner
+from lx.lifted import dump_runner, twin_runner
 
 PID = "C06"
 BOUNDS = ("corpus of checks/corpus.py, the 12 chain scripts of C04 and 6 dialect-specific statements (paths, LATERAL VIEW); up to 5 (quick) / "
@@ -110,7 +110,7 @@ class _Mixin:
                 eng().assume(f_not(names[st.cols[0]].lower()._eq(names[st.cols[1]].lower())))
         lr = self.script.runner(names)
         d = dump_runner(lr)
-        why = analyse(lr)
+        why = analyse(twin_runner(lr, paths=True, cyto=False))
         return Verdict(why is None, {"names": names, "lifted": d, "expected": None, "extra": {"why": why}},
                        region(why, self.st.kind if getattr(self, "st", None) is not None else None, self.key) if why else None)
 
